@@ -50,6 +50,8 @@ class Tiny:
             raise AnalysisError(f"tiny: constant {e.value!r}")
         if isinstance(e, (ast.List, ast.Tuple)):
             return [self.ev(x) for x in e.elts]
+        if isinstance(e, ast.Dict):
+            return {self.ev(k): self.ev(v) for k, v in zip(e.keys, e.values) if k is not None}
         if isinstance(e, (ast.Name, ast.Attribute)):
             t = norm.text(e)
             if t in self.env:
@@ -86,9 +88,13 @@ class Tiny:
                     return False
             return True
         if isinstance(e, ast.BoolOp):
-            if isinstance(e.op, ast.And):
-                return all(self.truth(self.ev(v)) for v in e.values)
-            return any(self.truth(self.ev(v)) for v in e.values)
+            # Python value semantics: `a or b` is a if a is truthy else b
+            v = None
+            for x in e.values:
+                v = self.ev(x)
+                if self.truth(v) != isinstance(e.op, ast.And):
+                    return v
+            return v
         if isinstance(e, ast.UnaryOp) and isinstance(e.op, ast.Not):
             return not self.truth(self.ev(e.operand))
         if isinstance(e, ast.UnaryOp) and isinstance(e.op, ast.USub):
@@ -106,6 +112,17 @@ class Tiny:
                 return (min if f == "min" else max)(self.ev(a) for a in e.args)
             if f in ("bytes", "bytearray", "memoryview") and len(e.args) == 1:
                 return self.ev(e.args[0])
+            if f in ("tuple", "list") and len(e.args) <= 1 and not e.keywords:
+                if not e.args:
+                    return []
+                v = self.ev(e.args[0])
+                if isinstance(v, (list, tuple)):
+                    return list(v)
+                if isinstance(v, dict):
+                    return list(v)
+                raise AnalysisError(f"tiny: {f}() of {v!r} would raise TypeError")
+            if f == "dict" and not e.args and not e.keywords:
+                return {}
             if isinstance(e.func, ast.Attribute) and e.func.attr == "append" and len(e.args) == 1:
                 tgt = self.ev(e.func.value)
                 if isinstance(tgt, list):
@@ -129,6 +146,7 @@ class Tiny:
     def truth(v):
         return len(v) > 0 if isinstance(v, Buf) else bool(v)
 
+
     def run(self, stmts, stop=None):
         """Execute statements; returns ('fall', None) / ('return', value) / ('stop', stmt)."""
         for st in stmts:
@@ -139,6 +157,11 @@ class Tiny:
                 t = st.targets[0]
                 if isinstance(t, (ast.Tuple, ast.List)):
                     raise AnalysisError("tiny: tuple assignment")
+                if isinstance(t, ast.Subscript) and not isinstance(t.slice, ast.Slice) and norm.text(t) not in self.env:
+                    base = self.ev(t.value)
+                    if isinstance(base, dict):
+                        base[self.ev(t.slice)] = v
+                        continue
                 self.env[norm.text(t)] = v
             elif isinstance(st, ast.AugAssign) and isinstance(st.op, (ast.Add, ast.Sub)):
                 t = norm.text(st.target)
@@ -170,3 +193,16 @@ class Tiny:
             else:
                 raise AnalysisError(f"tiny: statement {type(st).__name__} at line {st.lineno}")
         return ("fall", None)
+
+
+class Sym:
+    """An opaque object with a chosen truth value (e.g. a user object defining __len__ / __bool__)."""
+
+    def __init__(self, name, truthy=True):
+        self.name, self.truthy = name, truthy
+
+    def __bool__(self):
+        return self.truthy
+
+    def __repr__(self):
+        return f"<{self.name}{'' if self.truthy else ' (falsy)'}>"
